@@ -201,6 +201,11 @@ func TestC14(t *testing.T) {
 					v, cls := c14Check(c)
 					ev.Case("enum-"+helper, fmt.Sprintf("%v x %v", a, b), !eqInts(a, b), cls)
 					if v != "" {
+						// the case is a pure function of the two shapes: a genuine violation repeats
+						again, _ := c14Check(c)
+						if again == "" {
+							t.Fatalf("VERIF-INCONCLUSIVE C14 %s %v x %v failed once (%s) and passed when repeated", helper, a, b, v)
+						}
 						writeFailCase("C14", c)
 						t.Fatalf("C14 violated by %s %v x %v: %s", helper, a, b, v)
 					}
